@@ -6,6 +6,7 @@ import (
 	"fmt"
 	"net"
 	"net/http"
+	"strconv"
 
 	logging "github.com/0xReLogic/Helios/internal/logging"
 )
@@ -62,11 +63,23 @@ func (lrw *limitedResponseWriter) checkLimit(b []byte) error {
 		Str("type", "response").
 		Msg("response body size limit exceeded")
 
-	// If headers haven't been written yet, set the 413 status
+	// If headers haven't been written yet, answer 413. The response must be
+	// complete and on the wire before we return the error: the caller
+	// (ReverseProxy) aborts the handler on a failed write, and net/http drops
+	// whatever is still buffered when a handler aborts.
 	if !lrw.wroteHeader {
+		const msg = "Response body too large\n"
+		h := lrw.ResponseWriter.Header()
+		h.Del("Content-Encoding")
+		h.Set("Content-Type", "text/plain; charset=utf-8")
+		h.Set("Content-Length", strconv.Itoa(len(msg)))
 		lrw.statusCode = http.StatusRequestEntityTooLarge
 		lrw.ResponseWriter.WriteHeader(http.StatusRequestEntityTooLarge)
 		lrw.wroteHeader = true
+		_, _ = lrw.ResponseWriter.Write([]byte(msg))
+		if f, ok := lrw.ResponseWriter.(http.Flusher); ok {
+			f.Flush()
+		}
 	}
 
 	return fmt.Errorf("response body exceeds limit of %d bytes", lrw.limit)
@@ -92,8 +105,23 @@ func (lrw *limitedResponseWriter) WriteHeader(statusCode int) {
 	if lrw.wroteHeader {
 		return
 	}
+	// Informational responses (103 Early Hints, ...) are not the final status
+	if statusCode >= 100 && statusCode < 200 {
+		lrw.ResponseWriter.WriteHeader(statusCode)
+		return
+	}
 	// Just record the status code, don't write it yet
 	lrw.statusCode = statusCode
+}
+
+// finish forwards a recorded status that no body write has flushed out yet.
+// Without it a response without body (HEAD, 204, 304, redirects, empty errors)
+// reached the client as an implicit 200.
+func (lrw *limitedResponseWriter) finish() {
+	if !lrw.wroteHeader && lrw.statusCode != 0 {
+		lrw.ResponseWriter.WriteHeader(lrw.statusCode)
+		lrw.wroteHeader = true
+	}
 }
 
 // Support http.Hijacker if underlying supports it (for websockets)
@@ -106,6 +134,7 @@ func (lrw *limitedResponseWriter) Hijack() (net.Conn, *bufio.ReadWriter, error) 
 
 // Support http.Flusher if underlying supports it
 func (lrw *limitedResponseWriter) Flush() {
+	lrw.finish() // a flush commits the headers
 	if f, ok := lrw.ResponseWriter.(http.Flusher); ok {
 		f.Flush()
 	}
@@ -180,7 +209,9 @@ func newSizeLimitMiddleware(name string, cfg map[string]interface{}) (Middleware
 				ctx:            r.Context(),
 			}
 
-			// Call next handler with the limited response writer
+			// Call next handler with the limited response writer; the recorded
+			// status is forwarded even when next aborts
+			defer lrw.finish()
 			next.ServeHTTP(lrw, r)
 		})
 	}, nil
